@@ -16,15 +16,22 @@ import (
 // server_test.go builds one; the returned channel is closed when serve returns (hook for the verification
 // harness of C40; build tag verif; add-only).
 func VerifC40Serve(c net.Conn, h http.Handler, maxStreams uint32) <-chan struct{} {
+	done, _ := VerifC40ServeGraceful(c, h, maxStreams)
+	return done
+}
+
+// VerifC40ServeGraceful is VerifC40Serve that also returns the server's CloseNotifyCh: closing it is how bfe
+// tells every SPDY connection to shut down gracefully (serve: goAway(GoAwayOK)).
+func VerifC40ServeGraceful(c net.Conn, h http.Handler, maxStreams uint32) (<-chan struct{}, chan bool) {
 	conf := &Server{MaxConcurrentStreams: maxStreams}
-	hs := &http.Server{ReadTimeout: time.Hour, GracefulShutdownTimeout: time.Hour}
+	hs := &http.Server{ReadTimeout: time.Hour, GracefulShutdownTimeout: time.Hour, CloseNotifyCh: make(chan bool)}
 	sc := conf.handleConn(hs, c, h)
 	done := make(chan struct{})
 	go func() {
 		sc.serve()
 		close(done)
 	}()
-	return done
+	return done, hs.CloseNotifyCh
 }
 
 // VerifC40FlowAdd runs flow.add(n) on a flow holding n0 and returns the new value and the result.
